@@ -1,5 +1,443 @@
-//! C01 (real filesystem sources) — placeholder, filled in below.
-use vcommon::{Report, Rng, ShardArgs};
-pub fn run_one(_args: &ShardArgs, _rng: &mut Rng, _rep: &mut Report, _k: usize) {
-	std::thread::sleep(std::time::Duration::from_millis(50));
+//! C01 with the real event sources: filesystem operations under the real native / poll watchers
+//! (wrapped through hook H1 so that every notify event carries a unique id), process signals and
+//! keyboard EOF. Set oracle: every stamped notify event handed to the fs worker's callback is
+//! delivered to the action handler in exactly one batch; every operation on a watched path is
+//! mentioned by at least one delivered event (native watcher).
+
+use std::{
+	collections::{BTreeMap, BTreeSet},
+	path::{Path, PathBuf},
+	sync::{
+		atomic::{AtomicU64, Ordering},
+		Arc, Mutex,
+	},
+	time::Duration,
+};
+
+use notify::{Config as NConfig, RecursiveMode, Watcher as _, WatcherKind};
+use vcommon::{json, mono_ns, Fnv, Heartbeat, Report, Rng, ShardArgs};
+use watchexec::{sources::fs::Watcher, Config, Watchexec};
+use watchexec_events::{Event, Keyboard, Priority, Source, Tag};
+use watchexec_signals::Signal;
+
+struct Wrap {
+	inner: Box<dyn notify::Watcher + Send>,
+	watched: Arc<Mutex<Vec<String>>>,
+}
+
+impl notify::Watcher for Wrap {
+	fn new<F: notify::EventHandler>(_h: F, _c: NConfig) -> notify::Result<Self>
+	where
+		Self: Sized,
+	{
+		Err(notify::Error::generic("built by the factory only"))
+	}
+	fn watch(&mut self, path: &Path, mode: RecursiveMode) -> notify::Result<()> {
+		let r = self.inner.watch(path, mode);
+		if r.is_ok() {
+			self.watched.lock().unwrap().push(path.display().to_string());
+		}
+		r
+	}
+	fn unwatch(&mut self, path: &Path) -> notify::Result<()> {
+		self.inner.unwatch(path)
+	}
+	fn kind() -> WatcherKind
+	where
+		Self: Sized,
+	{
+		WatcherKind::NullWatcher
+	}
+}
+
+struct Shared {
+	stamped: Mutex<Vec<(u64, Vec<PathBuf>, String)>>,
+	next: AtomicU64,
+	batches: Mutex<Vec<Vec<Event>>>,
+	errors: Mutex<Vec<String>>,
+}
+
+fn quit_event() -> Event {
+	let mut md = std::collections::HashMap::new();
+	md.insert("verif-quit".to_string(), vec!["1".into()]);
+	Event { tags: vec![], metadata: md }
+}
+
+pub fn run_one(args: &ShardArgs, rng: &mut Rng, rep: &mut Report, i: usize) {
+	if i % 4 == 3 {
+		signals_and_keyboard(rep);
+	} else {
+		fs_scenario(args, rng, rep, i);
+	}
+}
+
+fn fs_scenario(args: &ShardArgs, rng: &mut Rng, rep: &mut Report, i: usize) {
+	let poll = i % 2 == 1;
+	let interval = Duration::from_millis(40);
+	let small_queue = i % 5 == 4;
+	let root = args.scratch.join(format!("c01fs-{i}"));
+	std::fs::remove_dir_all(&root).ok();
+	std::fs::create_dir_all(root.join("w/pre")).unwrap();
+	std::fs::write(root.join("w/pre/existing.txt"), "x").unwrap();
+	let root = root.canonicalize().unwrap();
+	let watched_dir = root.join("w");
+
+	let shared = Arc::new(Shared { stamped: Mutex::new(vec![]), next: AtomicU64::new(1), batches: Mutex::new(vec![]), errors: Mutex::new(vec![]) });
+	let watched = Arc::new(Mutex::new(vec![]));
+	{
+		let sh = shared.clone();
+		let watched = watched.clone();
+		watchexec::sources::fs::verif::set_factory(Some(Arc::new(move |kind, mut handler| {
+			let sh = sh.clone();
+			let stamp = move |res: notify::Result<notify::Event>| {
+				let res = res.map(|mut ev| {
+					let id = sh.next.fetch_add(1, Ordering::SeqCst);
+					ev.attrs.set_info(&id.to_string());
+					sh.stamped.lock().unwrap().push((id, ev.paths.clone(), format!("{:?}", ev.kind)));
+					ev
+				});
+				handler(res);
+			};
+			let inner: Box<dyn notify::Watcher + Send> = match kind {
+				Watcher::Poll(d) => Box::new(notify::PollWatcher::new(stamp, NConfig::default().with_poll_interval(d)).map_err(|e| watchexec::error::CriticalError::External(e.to_string().into()))?),
+				_ => Box::new(notify::RecommendedWatcher::new(stamp, NConfig::default()).map_err(|e| watchexec::error::CriticalError::External(e.to_string().into()))?),
+			};
+			Ok(Box::new(Wrap { inner, watched: watched.clone() }) as Box<dyn notify::Watcher + Send>)
+		})));
+	}
+
+	let rt = tokio::runtime::Builder::new_multi_thread().worker_threads(3).enable_all().build().expect("runtime");
+	let hb = Heartbeat::start();
+	let throttle = *rng.pick(&[0u64, 5, 20]);
+	let ops_done: Vec<(String, PathBuf)> = rt.block_on(async {
+		let mut config = Config::default();
+		if small_queue {
+			config.event_channel_size = 2;
+		}
+		config.throttle(Duration::from_millis(throttle));
+		if poll {
+			config.file_watcher(Watcher::Poll(interval));
+		}
+		let sh = shared.clone();
+		let slow = small_queue;
+		config.on_action(move |mut action| {
+			if action.events.iter().any(|e| e.metadata.contains_key("verif-quit")) {
+				action.quit();
+			}
+			sh.batches.lock().unwrap().push(action.events.to_vec());
+			if slow {
+				std::thread::sleep(Duration::from_millis(3));
+			}
+			action
+		});
+		let sh = shared.clone();
+		config.on_error(move |hook: watchexec::ErrorHook| {
+			sh.errors.lock().unwrap().push(format!("{:?}", hook.error));
+		});
+		let wx = Watchexec::with_config(config).expect("with_config");
+		let main = wx.main();
+		wx.config.pathset([watched_dir.clone()]);
+		// readiness: the watch() call on the directory has returned
+		let t0 = std::time::Instant::now();
+		while watched.lock().unwrap().is_empty() && t0.elapsed() < Duration::from_secs(5) {
+			tokio::time::sleep(Duration::from_millis(2)).await;
+		}
+		if poll {
+			tokio::time::sleep(interval * 3).await;
+		}
+		// operations
+		let mut ops: Vec<(String, PathBuf)> = vec![];
+		let mut files: Vec<PathBuf> = vec![watched_dir.join("pre/existing.txt")];
+		let mut dirs: Vec<PathBuf> = vec![watched_dir.clone(), watched_dir.join("pre")];
+		let nops = 6 + rng.usize(10);
+		for k in 0..nops {
+			let d = rng.pick(&dirs).clone();
+			match rng.below(7) {
+				0 | 1 => {
+					let f = d.join(format!("f{k}.txt"));
+					std::fs::write(&f, format!("{k}")).ok();
+					files.push(f.clone());
+					ops.push(("create".into(), f));
+				}
+				2 => {
+					let f = rng.pick(&files).clone();
+					if f.exists() {
+						std::fs::write(&f, format!("more {k}")).ok();
+						ops.push(("write".into(), f));
+					}
+				}
+				3 => {
+					let f = rng.pick(&files).clone();
+					if f.exists() {
+						let to = d.join(format!("r{k}.txt"));
+						if std::fs::rename(&f, &to).is_ok() {
+							files.push(to.clone());
+							ops.push(("rename-from".into(), f));
+							ops.push(("rename-to".into(), to));
+						}
+					}
+				}
+				4 => {
+					let f = rng.pick(&files).clone();
+					if f.exists() && std::fs::remove_file(&f).is_ok() {
+						ops.push(("remove".into(), f));
+					}
+				}
+				5 => {
+					let nd = d.join(format!("d{k}/nested"));
+					if std::fs::create_dir_all(&nd).is_ok() {
+						dirs.push(nd.parent().unwrap().to_path_buf());
+						ops.push(("mkdir".into(), nd.parent().unwrap().to_path_buf()));
+					}
+				}
+				_ => {
+					if dirs.len() > 2 {
+						let victim = dirs.pop().unwrap();
+						if victim != watched_dir && std::fs::remove_dir_all(&victim).is_ok() {
+							files.retain(|f| !f.starts_with(&victim));
+							dirs.retain(|x| !x.starts_with(&victim));
+							ops.push(("rm-r".into(), victim));
+						}
+					}
+				}
+			}
+			if poll {
+				tokio::time::sleep(interval * 2 + Duration::from_millis(10)).await;
+			} else if rng.chance(1, 2) {
+				tokio::time::sleep(Duration::from_millis(rng.below(8))).await;
+			}
+		}
+		// quiescence: the stream of stamped events has stopped, then everything stamped has been delivered
+		let settle = if poll { interval * 4 } else { Duration::from_millis(120) };
+		let mut last = 0;
+		let mut since = std::time::Instant::now();
+		let t1 = std::time::Instant::now();
+		while t1.elapsed() < Duration::from_secs(8) {
+			let n = shared.stamped.lock().unwrap().len();
+			if n != last {
+				last = n;
+				since = std::time::Instant::now();
+			} else if since.elapsed() > settle {
+				break;
+			}
+			tokio::time::sleep(Duration::from_millis(5)).await;
+		}
+		let t2 = std::time::Instant::now();
+		while t2.elapsed() < Duration::from_secs(10) {
+			let stamped: BTreeSet<u64> = shared.stamped.lock().unwrap().iter().map(|s| s.0).collect();
+			let delivered: BTreeSet<u64> = delivered_ids(&shared.batches.lock().unwrap()).into_keys().collect();
+			if stamped.is_subset(&delivered) || small_queue {
+				break;
+			}
+			tokio::time::sleep(Duration::from_millis(5)).await;
+		}
+		tokio::time::sleep(Duration::from_millis(2 * throttle + 30)).await;
+		wx.send_event(quit_event(), Priority::Urgent).await.ok();
+		tokio::time::timeout(Duration::from_secs(10), main).await.ok();
+		ops
+	});
+	watchexec::sources::fs::verif::set_factory(None);
+	rt.shutdown_timeout(Duration::from_millis(200));
+	let gap = hb.take_max_gap();
+	drop(hb);
+
+	rep.eval();
+	let stamped = shared.stamped.lock().unwrap().clone();
+	let batches = shared.batches.lock().unwrap().clone();
+	let delivered = delivered_ids(&batches);
+	rep.count("fs_notify_events_stamped", stamped.len() as u64);
+	rep.count("fs_events_delivered", delivered.values().sum::<usize>() as u64);
+	rep.count("fs_operations", ops_done.len() as u64);
+	rep.count(if poll { "fs_scenarios_poll" } else { "fs_scenarios_native" }, 1);
+	let mut h = Fnv::default();
+	for (_, _, k) in &stamped {
+		h.str(k);
+	}
+	if stamped.len() >= 2 {
+		rep.nontrivial(h.finish());
+	}
+	let wit = || {
+		json!({"watcher": if poll { "poll" } else { "native" }, "throttle_ms": throttle, "small_queue": small_queue,
+			"ops": ops_done.iter().map(|(o, p)| format!("{o} {}", p.strip_prefix(&root).unwrap_or(p).display())).collect::<Vec<_>>(),
+			"stamped": stamped.iter().take(40).map(|(id, p, k)| format!("#{id} {k} {:?}", p.iter().map(|p| p.strip_prefix(&root).unwrap_or(p).display().to_string()).collect::<Vec<_>>())).collect::<Vec<_>>(),
+			"errors": shared.errors.lock().unwrap().iter().take(5).collect::<Vec<_>>() })
+	};
+	for (id, n) in &delivered {
+		if *n > 1 {
+			rep.violation("C01/fs/duplicate", &format!("notify event #{id} was delivered in {n} batches"), wit());
+		}
+		if !stamped.iter().any(|s| s.0 == *id) {
+			rep.violation("C01/fs/unknown-id", &format!("delivered fs event carries id #{id} that no watcher callback produced"), wit());
+		}
+	}
+	if batches.iter().any(Vec::is_empty) {
+		rep.violation("C01/empty-batch", "the action handler was invoked with an empty batch", wit());
+	}
+	if !small_queue {
+		let missing: Vec<u64> = stamped.iter().map(|s| s.0).filter(|id| !delivered.contains_key(id)).collect();
+		if !missing.is_empty() {
+			if gap < Duration::from_millis(500) && shared.errors.lock().unwrap().is_empty() {
+				rep.violation("C01/fs/lost", &format!("{} notify event(s) accepted by the fs worker never reached the action handler: {missing:?}", missing.len()), wit());
+			} else {
+				rep.inconclusive("fs-missing-but-machine-stalled-or-queue-errors");
+			}
+		}
+		// floor: every operation is mentioned by at least one delivered event (native watcher)
+		if !poll {
+			let mentioned: BTreeSet<PathBuf> = batches.iter().flatten().flat_map(|e| e.paths().map(|(p, _)| p.to_path_buf()).collect::<Vec<_>>()).collect();
+			for (op, p) in &ops_done {
+				// operations inside a directory created moments ago may precede its inotify watch: not guaranteed by notify
+				let under_new_dir = ops_done.iter().any(|(o, d)| o == "mkdir" && p.starts_with(d) && p != d);
+				if under_new_dir || op == "rm-r" {
+					continue;
+				}
+				rep.count("fs_ops_floor_judged", 1);
+				if !mentioned.contains(p) {
+					if gap < Duration::from_millis(500) {
+						rep.violation(
+							&format!("C01/fs/op-not-mentioned/{op}"),
+							&format!("no delivered event mentions {} after {op}", p.strip_prefix(&root).unwrap_or(p).display()),
+							wit(),
+						);
+					} else {
+						rep.inconclusive("fs-floor-machine-stalled");
+					}
+				}
+			}
+		}
+	}
+	if i < 2 {
+		rep.sample(wit());
+	}
+	std::fs::remove_dir_all(&root).ok();
+}
+
+fn delivered_ids(batches: &[Vec<Event>]) -> BTreeMap<u64, usize> {
+	let mut m = BTreeMap::new();
+	for b in batches {
+		for e in b {
+			if let Some(id) = e.metadata.get("file-event-info").and_then(|v| v.first()).and_then(|s| s.parse::<u64>().ok()) {
+				*m.entry(id).or_default() += 1;
+			}
+		}
+	}
+	m
+}
+
+/// Signals sent to this very process and keyboard EOF (stdin is /dev/null for engine shards).
+fn signals_and_keyboard(rep: &mut Report) {
+	use nix::sys::signal::{kill, Signal as NSig};
+	use nix::unistd::Pid;
+	let rt = tokio::runtime::Builder::new_multi_thread().worker_threads(2).enable_all().build().expect("runtime");
+	let hb = Heartbeat::start();
+	let batches: Arc<Mutex<Vec<(u64, Vec<Event>)>>> = Arc::new(Mutex::new(vec![]));
+	let sent: Vec<(NSig, Signal, Source)> = vec![
+		(NSig::SIGHUP, Signal::Hangup, Source::Os),
+		(NSig::SIGUSR2, Signal::User2, Source::Os),
+		(NSig::SIGQUIT, Signal::Quit, Source::Os),
+		(NSig::SIGTERM, Signal::Terminate, Source::Os),
+		(NSig::SIGINT, Signal::Interrupt, Source::Keyboard),
+		(NSig::SIGUSR1, Signal::User1, Source::Os),
+	];
+	let mut findings: Vec<(String, String)> = vec![];
+	let ok = rt.block_on(async {
+		// make the default dispositions harmless before anything is sent (tokio keeps them installed)
+		use tokio::signal::unix::{signal, SignalKind};
+		let _guards = [
+			signal(SignalKind::hangup()),
+			signal(SignalKind::interrupt()),
+			signal(SignalKind::quit()),
+			signal(SignalKind::terminate()),
+			signal(SignalKind::user_defined1()),
+			signal(SignalKind::user_defined2()),
+		];
+		let config = Config::default();
+		config.throttle(Duration::from_millis(5));
+		let b = batches.clone();
+		config.on_action(move |mut action| {
+			if action.events.iter().any(|e| e.metadata.contains_key("verif-quit")) {
+				action.quit();
+			}
+			b.lock().unwrap().push((mono_ns(), action.events.to_vec()));
+			action
+		});
+		let wx = Watchexec::with_config(config).expect("with_config");
+		let main = wx.main();
+		let me = Pid::this();
+		let count = |b: &Arc<Mutex<Vec<(u64, Vec<Event>)>>>, s: Signal| b.lock().unwrap().iter().flat_map(|x| x.1.iter()).filter(|e| e.signals().any(|x| x == s)).count();
+		// readiness: USR1 until the source answers (signals before its listener exists are legitimately not events)
+		let t0 = std::time::Instant::now();
+		while count(&batches, Signal::User1) == 0 && t0.elapsed() < Duration::from_secs(5) {
+			kill(me, NSig::SIGUSR1).ok();
+			tokio::time::sleep(Duration::from_millis(5)).await;
+		}
+		if count(&batches, Signal::User1) == 0 {
+			return false;
+		}
+		tokio::time::sleep(Duration::from_millis(60)).await;
+		let base_usr1 = count(&batches, Signal::User1);
+		for (ns, ws, _) in &sent {
+			let before = count(&batches, *ws);
+			kill(me, *ns).ok();
+			let t = std::time::Instant::now();
+			while count(&batches, *ws) == before && t.elapsed() < Duration::from_secs(5) {
+				tokio::time::sleep(Duration::from_millis(1)).await;
+			}
+			tokio::time::sleep(Duration::from_millis(20)).await;
+			let after = count(&batches, *ws);
+			let _ = base_usr1;
+			if after != before + 1 {
+				findings.push((
+					format!("C01/signal/{}", if after == before { "lost" } else { "duplicate" }),
+					format!("one {ns:?} sent to the process produced {} {ws:?} events", after - before),
+				));
+			}
+		}
+		// keyboard EOF: stdin is at EOF, enabling the source must give exactly one event
+		wx.config.keyboard_events(true);
+		let t = std::time::Instant::now();
+		let eofs = |b: &Arc<Mutex<Vec<(u64, Vec<Event>)>>>| b.lock().unwrap().iter().flat_map(|x| x.1.iter()).filter(|e| e.tags.contains(&Tag::Keyboard(Keyboard::Eof))).count();
+		while eofs(&batches) == 0 && t.elapsed() < Duration::from_secs(3) {
+			tokio::time::sleep(Duration::from_millis(2)).await;
+		}
+		tokio::time::sleep(Duration::from_millis(50)).await;
+		let n = eofs(&batches);
+		if n != 1 {
+			findings.push((format!("C01/keyboard-eof/{}", if n == 0 { "lost" } else { "duplicate" }), format!("stdin at EOF produced {n} keyboard EOF events")));
+		}
+		wx.send_event(quit_event(), Priority::Urgent).await.ok();
+		tokio::time::timeout(Duration::from_secs(10), main).await.ok();
+		true
+	});
+	rt.shutdown_timeout(Duration::from_millis(300));
+	let gap = hb.take_max_gap();
+	rep.eval();
+	if !ok {
+		rep.inconclusive("signal-source-never-answered");
+		return;
+	}
+	let bs = batches.lock().unwrap();
+	// tags as documented
+	for (_, evs) in bs.iter() {
+		for e in evs {
+			for s in e.signals() {
+				let want_src = if s == Signal::Interrupt { Source::Keyboard } else { Source::Os };
+				if !e.tags.contains(&Tag::Source(want_src)) {
+					findings.push(("C01/signal/wrong-tags".into(), format!("signal event {e} lacks the {want_src:?} source tag")));
+				}
+			}
+		}
+	}
+	rep.count("signal_events_delivered", bs.iter().flat_map(|x| x.1.iter()).filter(|e| e.signals().next().is_some()).count() as u64);
+	rep.count("signal_scenarios", 1);
+	let mut f = Fnv::default();
+	f.str("signals").u64(bs.len() as u64);
+	rep.nontrivial(f.finish());
+	for (sig, what) in findings {
+		if gap < Duration::from_millis(500) {
+			rep.violation(&sig, &what, json!({"batches": bs.iter().map(|(_, e)| e.iter().map(ToString::to_string).collect::<Vec<_>>()).collect::<Vec<_>>() }));
+		} else {
+			rep.inconclusive("signal-scenario-machine-stalled");
+		}
+	}
 }
